@@ -812,3 +812,75 @@ Proof.
       intros x G G2. rewrite map_app. apply in_or_app.
       destruct (mk_get w1 x) as [m|] eqn:G1; [left; apply (p_all _ _ _ _ _ _ P1); congruence | right; apply AL; assumption].
 Qed.
+
+Lemma nodup_transfer {X A B} (f : X -> A) (g : X -> B) (l : list X) :
+  (forall p q, In p l -> In q l -> g p = g q -> f p = f q) -> NoDup (map f l) -> NoDup (map g l).
+Proof.
+  induction l as [|x l IH]; intros H Hnd; cbn [map] in *; [constructor|].
+  inversion Hnd as [|? ? Hn Hnd']; subst. constructor.
+  - intros Hin. apply in_map_iff in Hin. destruct Hin as [y [E Hy]]. apply Hn.
+    apply in_map_iff. exists y. split; [|assumption]. symmetry. apply H; [left; reflexivity | right; assumption | congruence].
+  - apply IH; [|assumption]. intros p q Hp Hq. apply H; right; assumption.
+Qed.
+
+(* the entities reachable from the marked ones through references *)
+Definition reach (w : slw) (nc : nat) : entity -> Prop := reach_from w nc (fun x => mk_get w x <> None).
+
+(* serialize_recursive: when it returns, the data is a faithful image of the
+   (now larger) marked part, and the marked part is exactly the least set
+   containing the initially marked entities and closed under references *)
+Theorem serialize_recursive_spec w nc : Inv w ->
+  let res := serialize_recursive w nc in
+  Inv (fst res) /\ mext w (fst res) /\
+  forall d, snd res = Some d ->
+    ser_data_spec (fst res) nc d /\ (forall x, mk_get (fst res) x <> None <-> reach w nc x).
+Proof.
+  intros HI. unfold serialize_recursive.
+  destruct (ser_loop_spec nc (S (length (l_entities (sl_life w)))) w (join_marked w) HI) as [HI' [MX R]].
+  set (res := ser_loop _ w nc (join_marked w)) in *. set (w' := fst res) in *.
+  split; [assumption|]. split; [assumption|]. intros d H.
+  destruct (R d H) as [L' [RK [EN [ND AL]]]]. clear R.
+  set (T := join_marked w) in *.
+  assert (forall x m, In (x, m) T <-> mk_get w x = Some m) as HT by (intros x m; apply in_join_marked_get; assumption).
+  assert (forall p, In p (T ++ L') -> mk_get w' (fst p) = Some (snd p)) as HL.
+  { intros [x m] Hin. cbn [fst snd]. apply in_app_or in Hin. destruct Hin as [Hin|Hin].
+    - apply MX. apply HT. assumption.
+    - apply (EN _ _ Hin). }
+  assert (NoDup (map fst (T ++ L'))) as NDL.
+  { rewrite map_app. apply NoDup_app_intro; [|assumption|].
+    - apply (nodup_transfer snd fst); [|apply join_marked_nodup_ids; assumption].
+      intros [x1 m1] [x2 m2] H1 H2 E. cbn [fst snd] in *. subst x2. apply HT in H1. apply HT in H2. congruence.
+    - intros x H1 H2. apply in_map_iff in H1. destruct H1 as [[x1 m1] [E H1]]. cbn [fst] in E. subst x1.
+      apply in_map_iff in H2. destruct H2 as [[x2 m2] [E H2]]. cbn [fst] in E. subst x2.
+      apply HT in H1. destruct (EN _ _ H2) as [G _]. congruence. }
+  assert (forall x m, mk_get w' x = Some m -> In (x, m) (T ++ L')) as COV.
+  { intros x m G. apply in_or_app. destruct (mk_get w x) as [m0|] eqn:G0.
+    - left. apply HT. pose proof (proj2 (proj2 MX) _ _ G0) as G1. fold w' in G1. congruence.
+    - right. assert (In x (map fst L')) as Hin by (apply AL; [assumption | congruence]).
+      apply in_map_iff in Hin. destruct Hin as [[x' m'] [E Hin]]. cbn [fst] in E. subst x'.
+      destruct (EN _ _ Hin) as [_ [G1 _]]. replace m with m' by congruence. assumption. }
+  split.
+  - split; [|split].
+    + unfold recs_ok in RK. rewrite (Forall2_map_fst_snd _ _ _ RK).
+      apply (nodup_transfer fst snd); [|assumption].
+      intros p q Hp Hq E. apply (inv_unique w' (fst p) (fst q) (snd p) HI'); [apply HL; assumption|]. rewrite E. apply HL. assumption.
+    + intros e m G. destruct (Forall2_in_l _ _ _ _ RK (COV _ _ G)) as [[m' cs] [Hin [E S]]]. cbn [fst snd] in *. subst m'.
+      exists cs. auto.
+    + intros m cs Hin. destruct (Forall2_in_r _ _ _ _ RK Hin) as [[e m'] [Hl [E S]]]. cbn [fst snd] in *. subst m'.
+      exists e. split; [apply (HL _ Hl) | assumption].
+  - intros x. split.
+    + intros G. destruct (mk_get w' x) as [m|] eqn:G1; [|congruence]. apply COV in G1. apply in_app_or in G1.
+      destruct G1 as [G1|G1].
+      * apply rf_src. apply HT in G1. congruence.
+      * destruct (EN _ _ G1) as [_ [_ RF]]. apply (reach_from_mono w w nc (fun y => In y (map fst T)) _ x); [reflexivity| |assumption].
+        intros y Hy. apply rf_src. apply in_map_iff in Hy. destruct Hy as [[y' m'] [E Hy]]. cbn [fst] in E. subst y'.
+        apply HT in Hy. congruence.
+    + intros RF. induction RF as [x Hx|y j x _ IH Hj G].
+      * destruct (mk_get w x) as [m|] eqn:G0; [|congruence]. pose proof (proj2 (proj2 MX) _ _ G0) as G1. fold w' in G1. congruence.
+      * destruct (mk_get w' y) as [m|] eqn:Gy; [|congruence].
+        destruct (Forall2_in_l _ _ _ _ RK (COV _ _ Gy)) as [[m' cs] [_ [_ S]]]. cbn [fst snd] in S.
+        destruct (ser_entity_spec _ _ _ _ _ _ S) as [_ SS]. specialize (SS j Hj).
+        replace (0 + N.of_nat j) with (N.of_nat j) in SS by lia.
+        destruct MX as [_ [C _]]. fold w' in C. rewrite C, G in SS. cbn [ser_slot] in SS.
+        destruct SS as [m'' [G'' _]]. congruence.
+Qed.
